@@ -76,13 +76,19 @@ Definition has0 (a : arr2) : bool := match snd a with Some _ => true | None => f
                    declared order1 = {v: {p: c}}           (T, Phi)
    RAv A D h p c b : ScalarOp with (arr, arr0) = A(c x + b), derivative pair D(c x + b), declared
                    order1 = {v: {p: c}}; h says whether the operator has a recovery array   (E, P, R)
-   RMc / RAc : constant operators, not differentiated;  RS : 1-D shift with optional nmax *)
+   RMc / RAc : constant operators, not differentiated;  RS : 1-D shift with optional nmax
+   RSpoil / RReset / RPD pd reset / RWait : SPOILER, RESET, PD(pd, reset), Wait -- operators without a
+                   differentiable parameter, applied through Operator.__call__ (state and partials) *)
 Inductive ritem : Type :=
 | RMc (M : mat3 Cops)
 | RMv (F D : R -> mat3 Cops) (p : param) (c b : R)
 | RAc (A : arr2)
 | RAv (A D : R -> arr2) (h : bool) (p : param) (c b : R)
-| RS (d : Z) (nm : option nat).
+| RS (d : Z) (nm : option nat)
+| RSpoil
+| RReset
+| RPD (p : C) (r : bool)
+| RWait.
 
 (* the operator epgpy applies at parameter value x *)
 Definition real_of (x : R) (it : ritem) : op Cops :=
@@ -92,6 +98,10 @@ Definition real_of (x : R) (it : ritem) : op Cops :=
   | RAc A => OScalar (fst A) (snd A)
   | RAv A D h p c b => OScalar (fst (A (c * x + b))) (snd (A (c * x + b)))
   | RS d nm => OShift d nm
+  | RSpoil => OSpoil
+  | RReset => OReset
+  | RPD p r => @OPD Cops p r
+  | RWait => OWait
   end.
 
 Definition fam_of (it : ritem) : fop :=
@@ -102,6 +112,10 @@ Definition fam_of (it : ritem) : fop :=
   | RAv A D h p c b => FScalar (fun x => fst (A (c * x + b)))
                          (if h then Some (fun x => opt0 (snd (A (c * x + b)))) else None)
   | RS d nm => FShift d nm
+  | RSpoil => FSpoil
+  | RReset => FReset
+  | RPD p r => FPD p r
+  | RWait => FWait
   end.
 
 (* the differentiation operator handed to diff.py's bookkeeping at x0 *)
@@ -117,6 +131,10 @@ Definition dop_of (x0 : R) (v : var) (it : ritem) : dinstr Cops :=
                  [(p, LScalar (fst (D (c * x0 + b))) (snd (D (c * x0 + b))))] []
                  [(v, [(p, RtoC c)])] [] true [])
   | RS d nm => DOp (mkDop (LShift d nm) [] [] [] [] true [])
+  | RSpoil => DPlain (@OSpoil Cops)
+  | RReset => DPlain (@OReset Cops)
+  | RPD p r => DPlain (@OPD Cops p r)
+  | RWait => DPlain (@OWait Cops)
   end.
 
 (* the 1-jets of the arrays *)
@@ -130,6 +148,10 @@ Definition jet_of (x0 : R) (it : ritem) : op DC :=
               (if h then Some (zipT (opt0 (snd (A (c * x0 + b))))
                                     (@tscale Cops (RtoC c) (opt0 (snd (D (c * x0 + b)))))) else None)
   | RS d nm => OShift d nm
+  | RSpoil => OSpoil
+  | RReset => OReset
+  | RPD p r => @OPD DC ((p, RtoC 0) : DC) r
+  | RWait => OWait
   end.
 
 (* side conditions: D is the derivative of the arrays at the point; the recovery array is present for
@@ -144,7 +166,7 @@ Definition item_ok (x0 : R) (it : ritem) : Prop :=
 
 Lemma inst_fam x0 it x : item_ok x0 it -> inst (fam_of it) x = real_of x it.
 Proof.
-  destruct it as [M|F D p c b|A|A D h p c b|d nm]; cbn [item_ok fam_of inst real_of]; intros Hok; try reflexivity.
+  destruct it as [M|F D p c b|A|A D h p c b|d nm| | |q r|]; cbn [item_ok fam_of inst real_of]; intros Hok; try reflexivity.
   - destruct A as [a [a0|]]; reflexivity.
   - destruct Hok as (_ & Hh & _). specialize (Hh (c * x + b)). unfold has0 in Hh.
     destruct h; cbn [option_map]; cbv beta; destruct (snd (A (c * x + b))); try discriminate; reflexivity.
@@ -152,7 +174,7 @@ Qed.
 
 Lemma item_jet x0 it : item_ok x0 it -> is_jet x0 (fam_of it) (jet_of x0 it).
 Proof.
-  destruct it as [M|F D p c b|A|A D h p c b|d nm]; cbn [item_ok fam_of jet_of is_jet ojet]; intros Hok.
+  destruct it as [M|F D p c b|A|A D h p c b|d nm| | |q r|]; cbn [item_ok fam_of jet_of is_jet ojet]; intros Hok.
   - split; auto. apply jetM_zip; [reflexivity|]. exact (derM_const _ x0).
   - split; auto. apply jetM_zip; [reflexivity|]. exact (derM_affine F c b x0 _ Hok).
   - split; [apply jetT_zip; [reflexivity|exact (derT_const _ x0)]|].
@@ -163,6 +185,10 @@ Proof.
     + destruct h; cbn [ojet]; auto.
       apply jetT_zip; [reflexivity|]. exact (derT_affine (fun u => opt0 (snd (A u))) c b x0 _ Da0).
   - split; reflexivity.
+  - exact I.
+  - exact I.
+  - split; reflexivity.
+  - exact I.
 Qed.
 
 Lemma lact_eq (A A0 B B0 : mat3 Cops) (x e : triple Cops) : A = B -> A0 = B0 ->
@@ -190,7 +216,7 @@ Proof. destruct o; reflexivity. Qed.
 
 Lemma item_pair x0 v it : item_ok x0 it -> pair_ok DC Cops jv jd v (jet_of x0 it) (dop_of x0 v it).
 Proof.
-  destruct it as [M|F D p c b|A|A D h p c b|d nm]; cbn [item_ok jet_of dop_of pair_ok]; intros Hok.
+  destruct it as [M|F D p c b|A|A D h p c b|d nm| | |q r|]; cbn [item_ok jet_of dop_of pair_ok]; intros Hok.
   - exists (LMatrix (zipM M mz) None). cbn [lin_op map_lin option_map d_lin is_shift d_order1].
     rewrite vM_zip. split; [reflexivity|split; [reflexivity|split]].
     + intros q l H. discriminate H.
@@ -233,6 +259,10 @@ Proof.
   - exists (LShift d nm). cbn [lin_op map_lin d_lin is_shift d_order1 d_darrs].
     split; [reflexivity|split; [reflexivity|split; [|reflexivity]]].
     intros q l H. discriminate H.
+  - reflexivity.
+  - reflexivity.
+  - exists ((q, RtoC 0) : DC). split; [reflexivity|split; reflexivity].
+  - reflexivity.
 Qed.
 
 (* ================= the end-to-end statement ================= *)
@@ -328,7 +358,11 @@ Inductive real_item (x0 : R) : ritem -> Prop :=
 | ri_R_rT rT_im rL r0 c b : real_item x0 (iR_rT rT_im rL r0 c b)
 | ri_R_rL rT_re rT_im r0 c b : real_item x0 (iR_rL rT_re rT_im r0 c b)
 | ri_R_r0 rT_re rT_im rL c b : real_item x0 (iR_r0 rT_re rT_im rL c b)
-| ri_S d nm : real_item x0 (RS d nm).
+| ri_S d nm : real_item x0 (RS d nm)
+| ri_Spoiler : real_item x0 RSpoil
+| ri_Reset : real_item x0 RReset
+| ri_PD pd reset : real_item x0 (RPD pd reset)
+| ri_Wait : real_item x0 RWait.
 
 Lemma real_item_ok x0 it : real_item x0 it -> item_ok x0 it.
 Proof.
